@@ -261,6 +261,12 @@ func (p *Prog) LookupFuncObj(rel, recv, name string) *types.Func {
 			return m
 		}
 	}
+	// a method promoted from an embedded struct of the SDK (state that was moved into a type of its own)
+	if o, _, _ := types.LookupFieldOrMethod(types.NewPointer(n), true, pk.Types, name); o != nil {
+		if m, ok := o.(*types.Func); ok && m.Pkg() != nil && (m.Pkg().Path() == modPath || strings.HasPrefix(m.Pkg().Path(), modPath+"/")) {
+			return m
+		}
+	}
 	return nil
 }
 
@@ -277,6 +283,12 @@ func (p *Prog) LookupField(rel, typ, field string) *types.Var {
 	for i := 0; i < st.NumFields(); i++ {
 		if f := st.Field(i); f.Name() == field {
 			return f
+		}
+	}
+	// a field promoted from an embedded struct of the SDK
+	if o, _, _ := types.LookupFieldOrMethod(n, true, n.Obj().Pkg(), field); o != nil {
+		if v, ok := o.(*types.Var); ok && v.IsField() && v.Pkg() != nil && (v.Pkg().Path() == modPath || strings.HasPrefix(v.Pkg().Path(), modPath+"/")) {
+			return v
 		}
 	}
 	return nil
